@@ -7,13 +7,19 @@ property on every state; every leaf (quick: a sample) is replayed on the real li
 harness/corosched_replay.cpp, which runs the whole program in one go and must reproduce the history
 event for event, including the content of the ready deque and the coroutine-mode flag at each event.
 
-quick   : twelve configurations (<= 3-4 coroutines x <= 2-3 steps + forced return, each exhaustive in TLC),
+quick   : fifteen configurations (<= 3-4 coroutines x <= 2-3 steps + forced return, each exhaustive in TLC),
           up to 3000 programs per configuration replayed (those in which order matters first).  Among them
           `accum` (a suspend_point VARIABLE reused through = and <<, awaited / cleared / flushed by its destructor),
           `pool` (a real one-worker cocls::thread_pool: co_await pool, pool.resume(sp), co_await pool(awaitable),
           pool.run(async), and what the coroutine does on the worker afterwards - coroutine mode must be on there)
           and `wide` (a fixed family of long histories of one deque: up to 40 coroutines ready at once after a
-          partial drain, with and without pause() rounds).
+          partial drain, with and without pause() rounds), `self` / `selffree` (the `co_await self()` pattern of self.h:
+          a suspend point carrying the awaiting coroutine's OWN handle at every position among up to 4 others, after which
+          the coroutine parks / pauses / yields, so that a second readying of it is seen; hand-made yield through the
+          discarded own suspend point) and `throw` (exceptional exits: native code enters coroutine mode through
+          coro_queue::install_queue_and_call(fn) / create_suspend_point(fn) with fn making coroutines ready and then
+          returning or THROWING - the outermost activation is left by the exception and must be drained all the same;
+          coroutine bodies left by an exception; create_suspend_point inside a coroutine).
           If the replayer does not compile because the representation of the ready deque changed, it is rebuilt
           with -DCOROSCHED_NO_PRIVATE (no deque snapshots; the expectation is blanked accordingly, recorded in the
           evidence as coverage.replayer_build and as an assumption).
@@ -34,9 +40,10 @@ from vlib import MachineryError, log
 
 SPEC = "CoroSched"
 TLC_WORKERS = 4
-ALL_CONFIGS = ("resolve", "fanout", "spawn", "bound", "park", "mutex", "queue", "mixed", "nested", "accum", "pool", "wide")
+ALL_CONFIGS = ("resolve", "fanout", "spawn", "bound", "park", "mutex", "queue", "mixed", "nested", "accum", "pool", "wide",
+               "self", "selffree", "throw", "create")
 # an event <<c, i, kind, <<x, y, ...>>, mode>> whose deque snapshot holds at least two coroutines
-RICH_RE = re.compile(r'<<\d+, \d+, "[bsefrw]", <<\d+, \d+')
+RICH_RE = re.compile(r'<<\d+, \d+, "[bsefrwxyht]", <<\d+, \d+')
 # set by run(): the replayer was built without the probes of the deque's representation
 NO_PRIVATE = False
 
@@ -66,6 +73,22 @@ CONFIGS = {
              "PoolAwait", "PoolRun", "Pause", "ResolveDiscard", "AwaitFuture", "Return"],
     # fixed family of long histories of one ready deque (up to 40 coroutines ready at once after a partial drain)
     "wide": ["NatSpawn", "Flush", "IqExit", "Pause", "SpawnDetachDiscard", "Return"],
+    # the documented `co_await self()` pattern (self.h): a suspend point that carries the awaiting coroutine's OWN handle
+    # at every position among up to 4 others, awaited; afterwards the coroutine parks / pauses / yields / returns, so that
+    # a second readying of it would be seen (fixed family SelfCases, every member replayed)
+    "self": ["NatSpawn", "NatUnpark", "Flush", "IqExit", "HoldSelf", "HoldDetach", "HoldAwait", "Park", "Pause", "SelfYield",
+             "Return"],
+    # the same steps freely combined (own handle taken by any coroutine at any time, hand-made yield)
+    "selffree": ["NatSpawn", "NatUnpark", "Flush", "IqExit", "HoldSelf", "HoldDetach", "HoldAwait", "Park", "Return"],
+    # exceptional exits: the function given to install_queue_and_call / create_suspend_point by NATIVE code makes
+    # coroutines ready and returns or THROWS (the outermost activation is left by the exception: full drain all the
+    # same); a coroutine body left by an exception
+    # after it made others ready; create_suspend_point called by a running coroutine (discarded, awaited, throwing function)
+    "throw": ["NatSpawn", "NatInstall", "NatCreate", "IqNext", "Flush", "IqExit", "AwaitFuture", "ResolveDiscard", "Return",
+              "Throw", "CreateDiscard", "CreateAwait", "CreateThrow"],
+    # create_suspend_point called by a running coroutine, with pause() rounds and native resolutions (thorough tier only)
+    "create": ["NatSpawn", "NatResolve", "Flush", "IqExit", "CreateDiscard", "CreateAwait", "CreateThrow", "AwaitFuture",
+               "Pause", "Return"],
     "mixed": ["NatSpawn", "NatResolve", "IqNext", "Flush", "IqExit", "Pause", "ResolveDiscard", "ResolveAwait",
               "AwaitFuture", "SpawnDetachDiscard", "SpawnDetachAwait", "SpawnCoAwait", "Return"],
 }
@@ -357,19 +380,27 @@ def run(ctx):
                    "harness no longer compiles): the content of the deque at each event is not compared, only the event "
                    "history, the coroutine-mode/thread flag and the per-coroutine counters")
     S3 = {"MaxSteps": 3}
+    # development aid: C05_PARTS=self,throw runs only these configurations (never set by bin/check's callers)
+    only = os.environ.get("C05_PARTS")
+    configs = [n for n in ALL_CONFIGS if not only or n in only.split(",")]
     if ctx.quick:
         cap = 3000
-        for name in ALL_CONFIGS:
-            if name == "wide":
+        for name in configs:
+            if name == "create":
+                continue    # thorough only (its steps are part of `throw`)
+            elif name == "wide":
                 replay_config(ctx, rp, name, constants={"Plan": '"wideq"'}, max_programs=cap)
             elif name == "queue":
                 # quick: queue<void> push/pop without pause() steps (a quarter of the graph; the full one is in thorough)
                 replay_config(ctx, rp, name, constants={"Kinds": '{"qo", "qd", "qa"}'}, max_programs=cap, must_skip=("Pause",))
+            elif name == "selffree":
+                # quick: two free steps per coroutine (plus the forced co_await of a held own handle); three in thorough
+                replay_config(ctx, rp, name, constants={"MaxSteps": 2}, max_programs=cap)
             else:
                 replay_config(ctx, rp, name, max_programs=cap)
     else:
         # exhaustive, every program replayed (address/UB sanitizers on)
-        for name in ALL_CONFIGS:
+        for name in configs:
             replay_config(ctx, rp, name)
         replay_config(ctx, rp, "resolve", "resolve_s3", dict(S3, Prune="TRUE"))
         replay_config(ctx, rp, "resolve", "resolve_k2", dict(K=2, Prune="TRUE"))
@@ -383,6 +414,11 @@ def run(ctx):
                                                         Kinds='{"po", "pr", "pw", "px", "rd", "pa", "aw"}'))
         replay_config(ctx, rp, "accum", "accum_pa", dict(MaxSteps=2, Kinds='{"ha", "hm", "hd", "hw", "hf", "aw", "pa"}'))
         replay_config(ctx, rp, "accum", "accum_n4", dict(N=4, Roots=1, NatSteps=1))
+        replay_config(ctx, rp, "throw", "throw_r3", dict(Roots=3))
+        # the exception of a child reaches the coroutine that co_awaits it
+        replay_config(ctx, rp, "throw", "throw_sc", dict(NatSteps=2, Kinds='{"aw", "rd", "rx", "sc"}'),
+                      must_skip=("CreateDiscard", "CreateAwait", "CreateThrow"))
+        replay_config(ctx, rp, "create", "create_k2", dict(K=2))
         # bigger bounds on the specification only
         tlc_only(ctx, "resolve", "resolve_s3_all", S3)
         tlc_only(ctx, "resolve", "resolve_k2s3", dict(S3, K=2, Prune="TRUE"))
@@ -403,7 +439,7 @@ def run(ctx):
     if not ctx.quick:
         nested_strict_probe(ctx)
     sh = ctx.extra.get("program_shapes", {})
-    for k in ("with_discarded_readying", "pause_with_others_queued", "deque_len_ge2_seen", "resolve_releasing_ge2",
+    for k in () if only else ("with_discarded_readying", "pause_with_others_queued", "deque_len_ge2_seen", "resolve_releasing_ge2",
               "spawn_inside_coroutine"):
         if not sh.get(k):
             raise MachineryError("vacuous replay: no replayed program exercises '%s'" % k)
@@ -418,5 +454,12 @@ def run(ctx):
                "the native driver resolves/unparks/pushes whatever is still blocked so that every coroutine finishes")
     ctx.assume("mutex and queue steps use one mutex / one queue<void>; mutex programs have no co_await of a child; "
                "signal/publisher emitters are not in the alphabet (they hand over through the same suspend_point paths)")
+    ctx.assume("own handle (co_await self()): the generated programs use it as documented - the suspend point carrying it is "
+               "co_awaited by its coroutine (any position, any number of other handles) or discarded right before a bare "
+               "suspension (hand-made yield); they never flush or destroy it while the coroutine goes on running or finishes")
+    ctx.assume("install_queue_and_call(fn) / create_suspend_point(fn) with a throwing fn are entered from native code only "
+               "(inside a coroutine: create_suspend_point only); create_suspend_point hands the collected coroutines over in "
+               "REVERSE queue order (taken from the back of the deque): mirrored from the code, the property does not fix "
+               "the array order of a suspend point")
     ctx.assume("the order among coroutines released by ONE promise resolution (latest subscriber first) and the target "
                "of the symmetric transfer (the LAST handle) are mirrored from the code, not required by the property")
